@@ -34,7 +34,26 @@ func selName(e ast.Expr) string { // a.b.c -> "a.b.c"
 type walker struct {
 	events   []string
 	stateVar string
-	raw      map[string]bool // raw atomic accesses seen: "state.Load", "state.Store"
+	raw      map[string]bool   // raw atomic accesses seen: "state.Load", "state.Store"
+	types    map[string]string // receiver and parameters of the function: name -> named type (pointer dropped)
+}
+
+// foreign reports that a selector a.mu.X / a.state.X hangs off a variable whose declared type is known and is not
+// Mux: another type's own mutex (e.g. a stream's) is not the routing state's lock. A base of unknown type stays in.
+func (w *walker) foreign(name string) bool {
+	base, _, _ := strings.Cut(name, ".")
+	t, ok := w.types[base]
+	return ok && t != "Mux"
+}
+
+func typeName(e ast.Expr) string {
+	switch x := e.(type) {
+	case *ast.StarExpr:
+		return typeName(x.X)
+	case *ast.Ident:
+		return x.Name
+	}
+	return ""
 }
 
 // classify the calls inside one simple statement
@@ -53,6 +72,9 @@ func (w *walker) calls(n ast.Node, inLoop bool) (found bool) {
 			return true
 		}
 		name := selName(c.Fun)
+		if (strings.Contains(name, ".mu.") || strings.Contains(name, ".state.")) && w.foreign(name) {
+			return true
+		}
 		switch {
 		case strings.HasSuffix(name, ".loadState().clone"):
 			w.events = append(w.events, "KLoadClone")
@@ -90,7 +112,8 @@ func (w *walker) touches(n ast.Node) bool {
 	ast.Inspect(n, func(x ast.Node) bool {
 		if c, ok := x.(*ast.CallExpr); ok {
 			name := selName(c.Fun)
-			if strings.HasSuffix(name, ".loadState") || strings.HasSuffix(name, ".storeState") || strings.Contains(name, ".mu.") || strings.Contains(name, ".state.") {
+			if strings.HasSuffix(name, ".loadState") || strings.HasSuffix(name, ".storeState") ||
+				((strings.Contains(name, ".mu.") || strings.Contains(name, ".state.")) && !w.foreign(name)) {
 				t = true
 			}
 		}
@@ -140,7 +163,9 @@ func (w *walker) block(stmts []ast.Stmt, cond, inLoop bool) {
 			w.simple(&ast.ExprStmt{X: &ast.CompositeLit{Elts: x.Results}}, inLoop)
 			w.events = append(w.events, fmt.Sprintf("(KRet %v)", cond))
 		case *ast.DeferStmt:
-			if strings.HasSuffix(selName(x.Call.Fun), ".mu.Unlock") {
+			if n := selName(x.Call.Fun); strings.HasSuffix(n, ".mu.Unlock") && w.foreign(n) {
+				// another type's own mutex
+			} else if strings.HasSuffix(n, ".mu.Unlock") {
 				w.events = append(w.events, "KDeferUnlock")
 			} else if w.touches(x) {
 				w.events = append(w.events, "KUnknown")
@@ -221,7 +246,19 @@ func main() {
 			if !ok || fd.Body == nil {
 				continue
 			}
-			w := &walker{raw: map[string]bool{}}
+			w := &walker{raw: map[string]bool{}, types: map[string]string{}}
+			for _, fl := range []*ast.FieldList{fd.Recv, fd.Type.Params} {
+				if fl == nil {
+					continue
+				}
+				for _, f := range fl.List {
+					if tn := typeName(f.Type); tn != "" {
+						for _, n := range f.Names {
+							w.types[n.Name] = tn
+						}
+					}
+				}
+			}
 			w.block(fd.Body.List, false, false)
 			if w.raw["state.Load"] {
 				rawLoad = append(rawLoad, fd.Name.Name)
